@@ -369,9 +369,6 @@ func (m *qpModel) classify(id streamID, end int64, isFinal, onlyLimit bool) qpEx
 		if st.forgotten && (e.flow || e.final) {
 			e.dontCare = true
 		}
-		if st.closeReadHigh >= 0 && (e.flow || e.final) {
-			// C20 extension off by default; see qpOpCloseRead
-		}
 	}
 	e.why = strings.Join(why, "; ")
 	return e
@@ -1050,6 +1047,11 @@ func qpDrawStreamPlan(rt *rapid.T, focus string) qpStreamPlan {
 		//             atH atF ahd atS S+1 far atC C+1 blw oth
 		resetW = []int{4, 0, 3, 3, 3, 1, 3, 3, 0, 0}
 		kindW = []int{14, 3, 7, 2, 0} // data reset read ack closeread
+		if vs.Config() == "peer-closeread" {
+			// not a registered job: explores what the conn does with data that
+			// arrives after the application's CloseRead (see the engine's assumptions)
+			kindW[4] = 3
+		}
 	} else {
 		p.base.cfgStream = vs.Pick(c, int64(0), 4000, 200, 64)
 		p.base.cfgConn = vs.Pick(c, int64(0), 20000, 1000)
@@ -1273,6 +1275,9 @@ func (r *qpRun) sendStreamFrame(st *qpStream, off int64, n int, fin bool, mode s
 	r.nontrivial = true
 	r.probeFrame(e, end, wasLimit, wasRoom, dup, false)
 	sig := "stream:" + mode + ":" + st.kind
+	if st.closeReadHigh >= 0 {
+		sig = "stream:after_close_read:" + mode + ":" + st.kind
+	}
 	if st.reset && !e.any() {
 		// a (re)transmission that agrees with the RESET_STREAM processed before
 		sig = "stream:consistent_after_reset:" + qpReadTag(st) + ":" + st.kind
@@ -1305,6 +1310,9 @@ func (r *qpRun) sendResetFrame(st *qpStream, fs int64, code uint64, mode string)
 	r.nontrivial = true
 	r.probeFrame(e, fs, wasLimit, wasRoom, false, true)
 	sig := "reset:" + mode + ":" + st.kind
+	if st.closeReadHigh >= 0 {
+		sig = "reset:after_close_read:" + mode + ":" + st.kind
+	}
 	if st.reset && !e.any() {
 		sig = "reset:repeat_of_reset:" + qpReadTag(st) + ":" + st.kind
 	}
@@ -1409,7 +1417,16 @@ func (r *qpRun) runStreamOps(p qpStreamPlan) {
 		case qpOpAckAll:
 			r.ackAll()
 		case qpOpCloseRead:
-			// not generated (kind weight 0); see the report
+			if sl.kind == "local-bidi" || !st.referenced || st.closeReadHigh >= 0 {
+				continue
+			}
+			if s := r.appStream(st); s != nil {
+				st.closeReadHigh = st.high
+				s.CloseRead()
+				r.drain()
+				r.flushLog(fmt.Sprintf("app: CloseRead stream %d at received offset %d", st.id, st.high))
+				vs.G.Inc("probe.app_close_read")
+			}
 		}
 	}
 	if r.over() {
@@ -1427,6 +1444,9 @@ func (r *qpRun) runStreamOps(p qpStreamPlan) {
 func (r *qpRun) readOp(st *qpStream, op qpOp) {
 	if sl := st; sl.kind != "local-bidi" && !st.referenced {
 		return
+	}
+	if st.closeReadHigh >= 0 || st.appClosedRead {
+		return // the application gave up reading
 	}
 	total := 0
 	var lastErr error
